@@ -11,6 +11,7 @@ import (
 
 	codec "github.com/uhppoted/uhppote-core/encoding/UTO311-L0x"
 	"github.com/uhppoted/uhppote-core/messages"
+	"github.com/uhppoted/uhppote-core/types"
 	"pgregory.net/rapid"
 
 	"verif/harness/ev"
@@ -146,6 +147,16 @@ func decideRT(c rtCase) (*rp.Fail, string, bool) {
 			return
 		}
 		after := fv.CanonAll(dec)
+		// a decoded date-time is that civil time in the process zone: the same instant as time.Date(.., time.Local)
+		for i, f := range fv.Leaves(dec) {
+			x := c.Fields[i]
+			if dt, ok := f.Interface().(types.DateTime); ok && !x.Zero && !dt.IsZero() {
+				if want := time.Date(x.Y, time.Month(x.M), x.D, x.H, x.Mi, x.S, 0, time.Local); !time.Time(dt).Equal(want) {
+					fail = rp.Failf("codec/roundtrip-instant", "%s in zone %s: date-time leaf %d decoded to the instant %v, the civil time %v in the process zone is %v", typeName, c.Zone, i, time.Time(dt).UTC(), after[i], want.UTC())
+					return
+				}
+			}
+		}
 		if d := fv.FirstDiff(before, after); d != "" {
 			site := "roundtrip"
 			if isZeroDateDiff(d) {
